@@ -306,6 +306,9 @@ func (g *gen) genFunc(kind string) {
 	if f.recovers && !g.on(kRecoverHard) {
 		f.protected = true
 	}
+	if f.hasDefer && !f.recovers && !g.on(kDeferSwallow) {
+		f.noSoft = true
+	}
 	// named results
 	named := len(sig.results) > 0 && g.chance(30) && kind != "safe"
 	if named && f.recovers && !g.on(kRecoverNamed) {
